@@ -732,6 +732,29 @@ theorem codeSortBytes_ok {s : Nat} (hs : 0 < s) {entrySize bufferSize totalMemor
       | error e => rw [hf] at ho; cases ho
       | ok o => exact ⟨_, _, _, rfl⟩
 
+/-- **byteEntry_refines**: a queue entry at byte level (`Read` loads `per_buffer` bytes,
+`Increment` advances `current_` by `entry_size` and refills when `current_ == buffer_end_`) refines
+the record-level buffered entry (`bufferedEntry_refines`) whenever `per_buffer` is a positive
+multiple of the entry size — which `per_buffer -= per_buffer % entry_size; assert(per_buffer)`
+(sort.hh:269-270) ensures: `Increment` never steps over `buffer_end_`, the records delivered are
+the records of the run, and the entry stays well-formed. -/
+theorem byteEntry_refines {E cap : Nat} (hE : 0 < E) (hc : 0 < cap) (hcap : E ∣ cap) :
+    (∀ file : Buf, E ∣ file.length →
+      (ByteEntry.read cap file).map (ByteEntry.abs E) = BufEntry.read (cap / E) (recordsOf E file) ∧
+      ∀ e, ByteEntry.read cap file = some e → e.wf E) ∧
+    (∀ e : ByteEntry, e.wf E →
+      ∃ r, e.increment E cap = .ok r ∧ r.map (ByteEntry.abs E) = (ByteEntry.abs E e).increment (cap / E) ∧
+        ∀ e', r = some e' → e'.wf E) :=
+  ⟨fun file hf => byteEntry_read hE hc hcap file hf, fun e hw => byteEntry_increment hE hc hcap e hw⟩
+
+/-- without the rounding the equality test `current_ != buffer_end_` is stepped over: entry size 2,
+a 3-byte buffer — after one record one byte is left and the next `Increment` leaves the buffer -/
+theorem byteEntry_unrounded_breaks :
+    ByteEntry.read 3 [1, 2, 3, 4, 5, 6] = some ⟨[1, 2, 3], [4, 5, 6]⟩ ∧
+    (⟨[1, 2, 3], [4, 5, 6]⟩ : ByteEntry).increment 2 3 = .ok (some ⟨[3], [4, 5, 6]⟩) ∧
+    (⟨[3], [4, 5, 6]⟩ : ByteEntry).increment 2 3 = .error () :=
+  ⟨rfl, rfl, rfl⟩
+
 /-! ## The chain blocks of the output -/
 
 /-- **output_blocks_invariant**: the blocks the consumer of `Sort::Output` receives (poison only /
